@@ -5,6 +5,7 @@ Theorems (lean/PpciVerif/Props/C05.lean), each tied to /repo by a differential r
   * riscv constant materialisation: Li and the two rvc CONSTI32 patterns leave v mod 2^32 in rd (Spec.RV32)
   * determine_arg_locations of arm / riscv: locations pairwise distinct
   * PeepHoleStream is the identity on streams without effect()-bearing instructions (every target but x86-64)
+  * riscv prologue/epilogue stack discipline (stack machine); real lists decoded and run in Spec.RV32 around an adversarial body
 Always-on failing-input search (NO theorem):
   * riscv / riscv:rvc: generated IR modules (and C front-end output) are compiled and linked by ppci, the image is
     executed by Spec.RV32 (Lean, driver C05 `rv*` operations) and compared with Spec.IR (driver IR, ptr size 4)
@@ -29,7 +30,12 @@ LEVEL_TEXT = (
     "pattern's condition with Spec.RV32.step leaves v mod 2^32 in rd, changes no other register and no memory; the rvc condition "
     "holds exactly when the upper part fits c.lui's signed non-zero 6-bit field; (3) determine_arg_locations of ARM/Thumb and "
     "RISC-V (with and without rvf): for every signature no two arguments share a register or a stack byte; (4) PeepHoleStream "
-    "returns every stream without effect()-bearing instructions unchanged (all targets but x86-64). Cited, proved under other "
+    "returns every stream without effect()-bearing instructions unchanged (all targets but x86-64); (5) riscv prologue/epilogue "
+    "stack discipline: for every frame size, outgoing-argument area and list of saved callee-saved registers, and every body that "
+    "keeps sp and the save area (it may clobber every other register and all other memory), epilogue after body after prologue "
+    "restores sp, ra, fp and every saved register - on a word-granular stack machine over the modelled instruction lists; the real "
+    "gen_prologue/gen_epilogue byte strings are decoded against the model and executed by Spec.RV32 around an adversarial body on "
+    "every run. Cited, proved under other "
     "properties: register allocation validated per frame on each target (C06), riscv/arm/thumb encodings, fields and relocations "
     "(C08, C10, C11), linker layout (C12). Everything else is covered only by a failing-input search that proves nothing: riscv "
     "and riscv:rvc images of generated IR functions executed in the Lean RV32 interpreter, and x86-64 code executed natively, "
@@ -46,10 +52,13 @@ RULE = ("eval_frame_alloc_* = one allocation history (fixed + random: sizes 1..1
         "eval_riscv_const = one (target option, CONST pattern, value) materialised by the real pattern function and executed in Spec.RV32 "
         "(values: 2^k±2, boundaries of the 6/12/20-bit fields, bit-11 cases, random to 32 bits); eval_arg_locations_* = one signature "
         "(all signatures up to 3 (thorough 4) arguments over the target's scalar types and three blob sizes, random longer ones); "
-        "eval_exec_* = one execution of a compiled function compared with Spec.IR; non-trivial = history with > 2 calls, signature with > 4 "
+        "eval_riscv_frame_* = one (used registers, stack size, out_calls) frame: real prologue/epilogue decoded, compared with the model and executed "
+        "around the adversarial body; eval_exec_* = one execution of a compiled function compared with Spec.IR (corpus incl. three-level call chains "
+        "with 7/8/10-argument callees, i.e. stack-passed arguments, and values live across the calls); non-trivial = history with > 2 calls, signature with > 4 "
         "arguments, every constant, every executed (module, function)")
 TRUSTED = [
-    "hand models Model.FrameAlloc, Model.RVLi, Model.ArgLoc, Model.Peephole (tied by differential runs on every check)",
+    "hand models Model.FrameAlloc, Model.RVLi, Model.ArgLoc, Model.Peephole, Model.RVFrame (tied by differential runs on every check)",
+    "the frame theorem's machine is a word-granular stack machine (Model.RVFrame.exec), not Spec.RV32; the link to Spec.RV32 is the per-run execution of the real byte strings",
     "Spec.RV32 (RV32IMC decode + step, from the ISA manual, validated against llvm-mc by C08) and Spec.IR (reference IR semantics, notes/IR.md)",
     "ppci's own linker and the layout used to build the riscv images (C11/C12 cover it)",
     "harness/irgen.py, harness/irser.py, harness/irrun.py (generator, structural serialiser, native runner)",
@@ -264,6 +273,37 @@ def ops_module(types, name):
     return irgen.Generated(m, ents, []), cases
 
 
+CHAIN_SRC = """
+int gacc[4];
+int h8(int a, int b, int c, int d, int e, int f, int g, int h) { gacc[0] = gacc[0] + a + h; return a + 2 * b + 3 * c + 4 * d + 5 * e + 6 * f + 7 * g + 8 * h; }
+int h7(int a, int b, int c, int d, int e, int f, int g) { gacc[1] = gacc[1] ^ g; return (a ^ b) + (c ^ d) * 3 + (e ^ f) * 5 + g * 7; }
+int h10(int a, int b, int c, int d, int e, int f, int g, int h, int i, int j) { return a - b + c - d + e - f + g - h + i * 3 - j * 5; }
+int g2(int x, int y) { int p = x * 3 + 1; int q = y * 5 + 2; int r = x - y; int s = x ^ y; int t = h8(p, q, r, s, x, y, p + q, r + s); int u = h7(t, p, q, r, s, x, y); return t + u + p * q + r * s; }
+int g3(int x, int y, int z) { int p = x + y; int q = y + z; int r = z + x; int t = h10(p, q, r, x, y, z, p ^ q, q ^ r, r ^ p, 7); gacc[2] = gacc[2] + t; return t * 3 + p + q * 5 + r * 7 + g2(p, r); }
+int f(int a, int b) { int k1 = a * 7 + 3; int k2 = b * 11 + 5; int k3 = a - b; int k4 = a ^ (b * 2); int k5 = a + b; int v = g2(k1, k2); int w = g2(k3, k4); return v + 2 * w + k1 + k2 * 3 + k3 * 5 + k4 * 7 + k5 * 9; }
+int f2(int a) { int i; int s = 0; int m = a * 3 + 1; for (i = 0; i < 3; i = i + 1) { s = s + g2(a + i, m) + m * i; m = m + s; } return s + m; }
+int f3(int a, int b, int c) { int k1 = a * b; int k2 = b * c; int k3 = c * a; int k4 = a + b + c; int v = g3(a, b, c); int w = g3(k1, k2, k3); int u = g2(v, w); return u + v * 3 + w * 5 + k1 + k2 * 7 + k3 * 9 + k4 * 11; }
+"""
+
+
+def chain_modules(levels):
+    """three-level call chains f -> g -> h(7/8/10 scalar arguments: more than the six argument registers of riscv) with values
+    kept live across the calls (callee-saved registers in use), from the C front-end, optimised at each level"""
+    from ppci import api, ir
+    from . import irgen
+    out = []
+    for lvl in levels:
+        m = api.c_to_ir(io.StringIO(CHAIN_SRC), "riscv")
+        api.optimize(m, level=lvl)
+        m.debug_db = None
+        m.name = f"c05_chain_O{lvl}"
+        ents = {n: irgen.Entry(n, [ir.i32] * k, ir.i32, True) for n, k in (("f", 2), ("f2", 1), ("f3", 3), ("g2", 2))}
+        cases = [(ents["f"], [1, -1]), (ents["f"], [0, 0]), (ents["f"], [123456, -7]), (ents["f2"], [5]), (ents["f2"], [-9]),
+                 (ents["f3"], [1, 2, 3]), (ents["f3"], [-5, 70000, 11]), (ents["g2"], [3, 4])]
+        out.append((irgen.Generated(m, list(ents.values()), []), cases, f"c-chain-O{lvl}"))
+    return out
+
+
 def cfg_riscv():
     from ppci import ir
     from . import irgen
@@ -332,10 +372,17 @@ def exec_search(ctx, parts):
     items = [(g, cases, "corpus") for g, cases in corpus_modules()]
     base = ctx.rng.randrange(1 << 30)
     n_rv = 24 if thorough else 3
+    try:
+        items += chain_modules([0, 1, 2, "s"] if thorough else [0, 2])
+    except Exception as e:  # noqa
+        ctx.note(f"chain_modules unavailable: {type(e).__name__}: {e}"[:200])
     for k in range(n_rv):
         r = random.Random(base + k)
-        g = irgen.gen_module(r, cfg_riscv(), name=f"rv{base + k}")
-        cases = [(e, a) for e in g.entries if e.external_ok for a in irgen.gen_args(r, e, 3 if thorough else 2)]
+        cfg = cfg_riscv()
+        if k % 2:
+            cfg.max_params = 8        # internal calls with stack-passed arguments (riscv has six argument registers)
+        g = irgen.gen_module(r, cfg, name=f"rv{base + k}")
+        cases = [(e, a) for e in g.entries if e.external_ok and len(e.params) <= 6 for a in irgen.gen_args(r, e, 3 if thorough else 2)]
         items.append((g, cases, f"gen-seed-{base + k}"))
     # C front-end output for riscv (no externals: the interpreter has no host calls)
     try:
@@ -408,6 +455,8 @@ def exec_search(ctx, parts):
                 rr = rv_out[off + run_at]
                 case = {"module": g.module.name, "from": tag, "march": march, "function": e.name, "args": [int(a) for a in args],
                         "ir": texts.get(id(g), "(C front-end output)")}
+                if tag.startswith("c-chain"):
+                    case["c_source"] = CHAIN_SRC
                 want = irrun.mask_globals(irrun.strip_steps(spec)[3:], pg)
                 if not rr.startswith("ok ret="):
                     kind = rr.split()[1] if rr.startswith("ok ") else "driver"
@@ -490,7 +539,8 @@ def irser_text(g):
 
 
 def check(ctx):
-    parts = [cgslivers.frame_alloc(ctx), cgslivers.riscv_consts(ctx), cgslivers.riscv_imm_patterns(ctx), cgslivers.arg_locations(ctx)]
+    parts = [cgslivers.frame_alloc(ctx), cgslivers.riscv_consts(ctx), cgslivers.riscv_imm_patterns(ctx), cgslivers.arg_locations(ctx),
+             cgslivers.riscv_frames(ctx)]
     x86_native = exec_search(ctx, parts)
     cgslivers.run_parts(ctx, "C05", parts)       # ONE start of the Lean driver for everything
     x86_native()
